@@ -100,6 +100,8 @@ func (t *tcpHandler) handleConn(connSt *connInfo, pkg []byte) {
 
 func (t *tcpHandler) Handle() error {
 	cfg := t.config
+	// receive loops started by this accept loop
+	var recvWg sync.WaitGroup
 	for {
 		if atomic.LoadInt32(&t.server.isClosed) == 1 {
 			TLOG.Errorf("Close accept %s %d", t.config.Address, os.Getpid())
@@ -126,7 +128,9 @@ func (t *tcpHandler) Handle() error {
 			continue
 		}
 		atomic.AddInt32(&t.server.numConn, 1)
+		recvWg.Add(1)
 		go func(conn net.Conn) {
+			defer recvWg.Done()
 			key := conn.RemoteAddr().String()
 			switch c := conn.(type) {
 			case *net.TCPConn:
@@ -144,6 +148,10 @@ func (t *tcpHandler) Handle() error {
 		}(conn)
 	}
 	if t.pool != nil {
+		// the receive loops keep queueing handlers until their connection is closed: the pool
+		// must outlive them, otherwise requests already read are never executed, their
+		// connection never drains and is never closed
+		recvWg.Wait()
 		t.pool.Release()
 	}
 	return nil
